@@ -23,6 +23,7 @@ RULE = ("catalogue (per record type A/AAAA/TXT/NSEC/OPT and per shape of the sec
         "ids 0/65535 and an aged item; a rewritten stored message and a rewritten hit handed back to the cache; shared "
         "record pointers and shared rdata slices inside one client followed by writes through them; replaced, refused "
         "(truncated, wrong question, TTL 0) answers and /flush; expiry (lazy path with its background update, or a miss). "
+        "The cache's own dump and load: two and three different entries in one dump block, hits before and after GET /dump (repeated names, Compress on and off), writes, /flush, POST /load_dump, hits on every key of the block, a second load; seeded dump-load histories of 8..18 steps (answers that survive the wire, lookups, writes, dumps, loads, /flush over 3 keys; after every load the stored messages are read). "
         "Seeded random histories of 6..16 steps on one real Cache over 3 keys and 3 clients: Cache.Exec with a scripted "
         "rest-of-chain (new answer / nothing / an already held message), writes of 14 kinds to any held message (in and out "
         "of range), item clock moves, expiry, /flush. A case is non-trivial when a held message of key k is written to and a "
@@ -35,6 +36,7 @@ ASSUMPTIONS = [
     "on it; sharing one section backing array between two caller messages is not modelled",
     "a holder can only store references it can reach: a link mutation takes its source from a message of the same client "
     "(clients do not pass references to each other)",
+    "miekg/dns Pack/Unpack round-trips the answers used in dump-load histories (A, AAAA, TXT, OPT; that is property C19); Msg.Compress is not on the wire, a loaded message has it clear; Load takes the list of unpacked values as input",
     "which TTL rewriting a lookup applies (age, or the lazy path) and whether an entry is still there are inputs of the "
     "model (timing is property C05, the key is property C04); Go memory-model data races are not modelled",
 ]
@@ -52,7 +54,9 @@ LEVEL_TEXT = ("Theorems in coq/Properties/C10.v, for every history of stores, lo
               "passed in; messages of different clients share no object; every hit is made of new objects; no operation of "
               "another client changes the value of a held message; no write changes what the cache holds; a hit returns exactly "
               "what was stored (value at store time, OPT stripped, TTLs rewritten) with the query's id; the sequence of served "
-              "values is the same with and without the writes. The model is run inside Coq on every history the Go driver "
+              "values is the same with and without the writes; a dump changes no stored object (the state is identical, every later hit "
+              "equals the hit before); every item a load creates is made of new objects, disjoint from every other item and every held "
+              "message, and holds exactly its own entry (round trip: the value at dump time). The model is run inside Coq on every history the Go driver "
               "executed on the real plugin.")
 LEVEL_NOTE = ("Trusted: Coq kernel + vm_compute; hand-written aliasing model tied to the code by the differential run; miekg Copy "
               "depth as assumed contract (tested for five record types); no data-race reasoning. No axioms.")
